@@ -129,6 +129,18 @@ def gen(rng, tier):
     for _ in range(N):
         r = S.serial_graph(rng, depth=rng.choice([0, 1, 2]), max_nodes=rng.choice([2, 4, 6]))
         cases.append({"kind": "graph", "recipe": V.enc_recipe(r)})
+    # a graph that went through infer_types() before it is written: what inference stored in the types is not part of the file; a
+    # convolution whose `input_shape` PARAMETER disagrees with what its predecessor delivers is written with the parameter it has
+    for _ in range(12 if tier == "quick" else 120):
+        nd = rng.choice([1, 2])
+        a, bsz = rng.choice([8, 10, 12]), rng.choice([8, 9, 10, 12])
+        conv = {"k": "Conv1d" if nd == 1 else "Conv2d",
+                "args": {"input_shape": bsz if nd == 1 else (bsz, bsz - 1), "weight": np.ones((2, 3) + (3,) * nd, dtype="float32"),
+                         "stride": 1, "padding": 0, "dilation": 1, "groups": 1, "bias": np.ones(2, dtype="float32")}}
+        r = {"k": "NIRGraph", "nodes": {"in": {"k": "Input", "args": {"input_type": np.array([3] + [a] * nd)}}, "conv": conv,
+                                        "out": {"k": "Output", "args": {"output_type": np.array([2] + [a - 2] * nd)}}},
+             "edges": [("in", "conv"), ("conv", "out")]}
+        cases.append({"kind": "graph", "recipe": V.enc_recipe(r), "infer_first": True})
     return cases
 
 
@@ -164,6 +176,12 @@ def run(c):
     if b[0] != "ok":
         return Outcome(None, None, False, sig)
     g = b[1]
+    if c.get("infer_first"):
+        try:
+            with quiet():
+                g.infer_types()
+        except BaseException:  # noqa: BLE001
+            pass
     bio = io.BytesIO()
     nontriv = len(r["nodes"]) >= 2 or "metadata" in r
     import hashlib
@@ -197,6 +215,8 @@ def run(c):
             shutil.rmtree(tmpdir, ignore_errors=True)
     with h5py.File(bio, "r") as f:
         coq = f"(CWrite {pyobs.nexpr(r)} (Ok {pyobs.h5_term(f)}))"
+        if c.get("infer_first"):
+            coq = None       # inference may re-type the Output, whose shape IS written: decided by the reference encoder on the object
         root = raw_tree(f)
         n_attrs = len(f.attrs) + len(f["node"].attrs) if "node" in f else len(f.attrs)
     fail = None
